@@ -61,3 +61,83 @@ by apply: trmx_inj; rewrite trmx_mul trmxK.
 Qed.
 
 End Bridge.
+
+(* ---------- Dmdc._fit_regressor as regenerated from the source (Gen/Regressors.v, Section GenDmdc) *)
+Section BridgeDmdc.
+Variable F : fieldType.
+Variables pt pu q r rh : nat.
+Variable X_unshifted : 'M[F]_(q, pt + pu).
+Variable X_shifted : 'M[F]_(q, pt).
+Variables (Q_tld : 'M[F]_(pt + pu, r)) (sig_tld : 'rV[F]_r) (Z_tld : 'M[F]_(q, r)).
+Variables (Q_hat : 'M[F]_(pt, rh)) (sig_hat : 'rV[F]_rh) (Z_hat : 'M[F]_(q, rh)).
+Variables (lmb : 'rV[F]_rh) (V_tld : 'M[F]_rh).
+
+Notation A := (gen_dmdc_A X_shifted Q_tld sig_tld Z_tld).
+Notation B := (gen_dmdc_B X_shifted Q_tld sig_tld Z_tld).
+Notation A_tld := (gen_dmdc_A_tld X_shifted Q_tld sig_tld Z_tld Q_hat).
+Notation V_exact := (gen_dmdc_modes_exact X_shifted Q_tld sig_tld Z_tld Q_hat V_tld).
+Notation V_proj := (gen_dmdc_modes_projected Q_hat V_tld).
+Notation Lambda := (gen_dmdc_Sigma lmb).
+
+Hypothesis eig_ok : gen_dmdc_eig_argument X_shifted Q_tld sig_tld Z_tld Q_hat *m V_tld = V_tld *m Lambda.
+
+(* the reduced operator is the projection of A, and the exact modes are A applied to the projected ones *)
+Lemma dmdc_A_tld_is_projection : A_tld = Q_hat^T *m A *m Q_hat.
+Proof. by rewrite /gen_dmdc_A_tld /gen_dmdc_A !mulmxA. Qed.
+
+Lemma dmdc_exact_is_A_projected : V_exact = A *m V_proj.
+Proof. by rewrite /gen_dmdc_modes_exact /gen_dmdc_modes_projected /gen_dmdc_A !mulmxA. Qed.
+
+(* projected modes: eigenvectors of Q_hat A_tilde Q_hat^T when the retained left singular vectors are orthonormal *)
+Lemma dmdc_projected_modes_eigen : Q_hat^T *m Q_hat = 1%:M ->
+  (Q_hat *m A_tld *m Q_hat^T) *m V_proj = V_proj *m Lambda.
+Proof.
+move=> QQ. rewrite /gen_dmdc_modes_projected.
+have -> : Q_hat *m A_tld *m Q_hat^T *m (Q_hat *m V_tld) = Q_hat *m A_tld *m (Q_hat^T *m Q_hat) *m V_tld by rewrite !mulmxA.
+rewrite QQ mulmx1 -mulmxA.
+have -> : A_tld = gen_dmdc_eig_argument X_shifted Q_tld sig_tld Z_tld Q_hat by [].
+by rewrite eig_ok mulmxA.
+Qed.
+
+(* exact modes: eigenvectors of the full operator A whenever Q_hat spans the range of A (in particular when the
+   SVD of the shifted data is not truncated: Theta_+ = Q_hat S_hat Z_hat^T gives Q_hat Q_hat^T A = A) *)
+Lemma dmdc_exact_modes_eigen : Q_hat *m Q_hat^T *m A = A -> A *m V_exact = V_exact *m Lambda.
+Proof.
+move=> HA. rewrite dmdc_exact_is_A_projected /gen_dmdc_modes_projected.
+have -> : A *m (Q_hat *m V_tld) *m Lambda = A *m Q_hat *m (V_tld *m Lambda) by rewrite !mulmxA.
+rewrite -eig_ok.
+have -> : gen_dmdc_eig_argument X_shifted Q_tld sig_tld Z_tld Q_hat = Q_hat^T *m A *m Q_hat by exact: dmdc_A_tld_is_projection.
+have -> : A *m Q_hat *m (Q_hat^T *m A *m Q_hat *m V_tld) = A *m (Q_hat *m Q_hat^T *m A) *m (Q_hat *m V_tld) by rewrite !mulmxA.
+by rewrite HA !mulmxA.
+Qed.
+
+Lemma dmdc_range_untruncated :
+  gen_dmdc_Theta_p X_shifted = Q_hat *m diag_mx sig_hat *m Z_hat^T -> Q_hat^T *m Q_hat = 1%:M ->
+  Q_hat *m Q_hat^T *m A = A.
+Proof.
+move=> HT QQ. rewrite /gen_dmdc_A HT.
+have -> : Q_hat *m Q_hat^T *m (Q_hat *m diag_mx sig_hat *m Z_hat^T *m Z_tld *m gen_dmdc_Sig_tld_inv sig_tld *m (gen_dmdc_Q_tld_1 Q_tld)^T)
+        = Q_hat *m (Q_hat^T *m Q_hat) *m diag_mx sig_hat *m Z_hat^T *m Z_tld *m gen_dmdc_Sig_tld_inv sig_tld *m (gen_dmdc_Q_tld_1 Q_tld)^T
+  by rewrite !mulmxA.
+by rewrite QQ mulmx1.
+Qed.
+
+Lemma dmdc_exact_modes_untruncated :
+  gen_dmdc_Theta_p X_shifted = Q_hat *m diag_mx sig_hat *m Z_hat^T -> Q_hat^T *m Q_hat = 1%:M ->
+  A *m V_exact = V_exact *m Lambda.
+Proof. move=> HT QQ. apply: dmdc_exact_modes_eigen. exact: dmdc_range_untruncated. Qed.
+
+(* the returned operator: coef = hstack((A_r, B))^T with A_r^T an exact solution of the generated system; the
+   state-transition block of coef^T is A_r, its input block is B, and every column of modes_ is an eigenvector of
+   A_r with the published eigenvalue *)
+Lemma dmdc_returned_operator (modes : 'M[F]_(pt, rh)) (X : 'M[F]_pt) :
+  gen_dmdc_lstsq_lhs modes *m X = gen_dmdc_lstsq_rhs lmb modes ->
+  let coef := gen_dmdc_coef X_shifted Q_tld sig_tld Z_tld X^T in
+  lsubmx coef^T = X^T /\ rsubmx coef^T = B /\ lsubmx coef^T *m modes = modes *m Lambda.
+Proof.
+rewrite /gen_dmdc_lstsq_lhs /gen_dmdc_lstsq_rhs /gen_dmdc_coef => H /=.
+rewrite trmxK row_mxKl row_mxKr; split=> //; split=> //.
+by apply: trmx_inj; rewrite trmx_mul trmxK.
+Qed.
+
+End BridgeDmdc.
